@@ -42,6 +42,9 @@ type Case struct {
 	MustSecure bool   `json:"must_secure,omitempty"`
 	Insecure   bool   `json:"insecure,omitempty"`
 	ClientTLS  string `json:"client_tls,omitempty"` // key-mismatch | cert-file-missing: the client cannot load its own TLS material
+	// Reconnect: after the first (protected) session carried data the carrier is cut and the server comes back
+	// WITHOUT a certificate; the next local connection makes the client establish a second session
+	Reconnect bool `json:"reconnect,omitempty"`
 	// scripted server
 	Announce string `json:"announce,omitempty"`
 	Upgrade  string `json:"upgrade,omitempty"`
@@ -53,6 +56,9 @@ type Case struct {
 func (c Case) String() string {
 	switch c.Part {
 	case "honest":
+		if c.Reconnect {
+			return fmt.Sprintf("honest %s serverCert=%v mustSecure=%v insecure=%v, then the session is lost and the server returns without a certificate", c.Carrier, c.ServerCert, c.MustSecure, c.Insecure)
+		}
 		if c.ClientTLS != "" {
 			return fmt.Sprintf("honest %s encrypted=%v serverCert=%v mustSecure=%v insecure=%v clientTLS=%s", c.Carrier, c.Encrypted, c.ServerCert, c.MustSecure, c.Insecure, c.ClientTLS)
 		}
@@ -131,6 +137,27 @@ func honest(t *testing.T, c Case) (kind, detail string) {
 		}
 		if established {
 			sessions++
+		}
+		if kind == "" && c.Reconnect && established && w.Sock != nil {
+			// second session of the same client: the required security must still be required
+			w.Sock.ServerConfig.Certificate, w.Sock.ServerConfig.PrivateKey = "", ""
+			w.Sock.ServerConfig.CertificateFile, w.Sock.ServerConfig.PrivateKeyFile = "", ""
+			if cl := w.CarrierClientEnd(0); cl != nil {
+				cl.Cut(false, false)
+			}
+			bubble.Wait()
+			bubble.Advance(2 * time.Second)
+			marker2 := append([]byte("second-session:"), marker...)
+			before := w.Chans[0].NumTargets()
+			app2 := w.OpenApp("x", nil)
+			app2.StartWrite(marker2)
+			bubble.Wait()
+			bubble.Advance(60 * time.Second)
+			for i := before; i < w.Chans[0].NumTargets(); i++ {
+				if bytes.Equal(w.Chans[0].Target(i).Bytes(), marker2) && c.MustSecure {
+					kind, detail = "secure-required-but-plaintext-session", "after the protected session was lost the server came back without a certificate (no StartTLS): the client, told to require security, established a second session and carried application data over it"
+				}
+			}
 		}
 	})
 	if res.Panic != "" {
@@ -437,6 +464,9 @@ func cases() []Case {
 				for _, ms := range []bool{false, true} {
 					for _, ins := range []bool{false, true} {
 						out = append(out, Case{Part: "honest", Carrier: carrier, Encrypted: enc, ServerCert: crt, MustSecure: ms, Insecure: ins})
+						if !enc && crt && carrier == "stream" {
+							out = append(out, Case{Part: "honest", Carrier: carrier, ServerCert: true, MustSecure: ms, Insecure: ins, Reconnect: true})
+						}
 						if !enc && crt && carrier != "udp" {
 							// a StartTLS-capable server and a client whose own certificate material cannot be loaded:
 							// whatever the client does, it must not carry the payload in the clear
